@@ -139,6 +139,8 @@ pub struct UpdLog {
     pub sub: usize,
     pub upd: Update<SV>,
     pub read: Option<Result<SV, ObserverError>>,
+    /// what every observer returned when read from inside this callback: (slot, result)
+    pub reads_all: Vec<(usize, Result<SV, ObserverError>)>,
 }
 
 impl Shared {
@@ -598,6 +600,23 @@ impl World {
             w.build(s);
         }
         CUT_SH.with(|c| *c.borrow_mut() = Some(w.sh.clone()));
+        if cfg.mon.c07 {
+            // every observer is read from inside every user function that runs during stabilise
+            let weak_obs = Rc::downgrade(&w.obs);
+            *w.sh.on_invoke.borrow_mut() = Some(Box::new(move |inv: &Inv| {
+                let Some(o) = weak_obs.upgrade() else { return };
+                let Ok(o) = o.try_borrow() else { return };
+                for (k, s) in o.iter().enumerate() {
+                    if let Some(h) = s.handles.first() {
+                        let got = h.try_get_value();
+                        cover("observer-read-inside-node-function");
+                        if got != Err(ObserverError::CurrentlyStabilising) {
+                            violation("C07/observer-readable-inside-node-function", format!("observer slot {k} read from inside {:?} returned {got:?}", inv.key));
+                        }
+                    }
+                }
+            }));
+        }
         w.sh.cut_eq.set(cfg.cut_eq);
         for n in cfg.cut_nodes.clone() {
             let all = vec![CutKind::Default, CutKind::Never, CutKind::Always, CutKind::Fn, CutKind::Boxed];
@@ -1789,7 +1808,8 @@ impl World {
                 let slot = *k;
                 let r = h.try_subscribe(move |u: Update<&SV>| {
                     let read = weak_obs.upgrade().and_then(|o| o.try_borrow().ok().and_then(|o| o[slot].handles.first().map(|h| h.try_get_value())));
-                    sh.updates.borrow_mut().push(UpdLog { round: sh.round.get(), during_stabilise_call: sh.in_stabilise.get(), slot, sub: j, upd: u.cloned(), read });
+                    let reads_all: Vec<(usize, Result<SV, ObserverError>)> = weak_obs.upgrade().and_then(|o| o.try_borrow().ok().map(|o| o.iter().enumerate().filter_map(|(i, s)| s.handles.first().map(|h| (i, h.try_get_value()))).collect())).unwrap_or_default();
+                    sh.updates.borrow_mut().push(UpdLog { round: sh.round.get(), during_stabilise_call: sh.in_stabilise.get(), slot, sub: j, upd: u.cloned(), read, reads_all });
                     sh.fire(Trigger::Handler(slot), true);
                     let arm = {
                         let mut a = sh.armed_sub.borrow_mut();
@@ -1803,7 +1823,7 @@ impl World {
                             let (sh3, wo3) = (sh.clone(), weak_obs.clone());
                             let r = h.try_subscribe(move |u: Update<&SV>| {
                                 let read = wo3.upgrade().and_then(|o| o.try_borrow().ok().and_then(|o| o[target].handles.first().map(|h| h.try_get_value())));
-                                sh3.updates.borrow_mut().push(UpdLog { round: sh3.round.get(), during_stabilise_call: sh3.in_stabilise.get(), slot: target, sub: nsub, upd: u.cloned(), read });
+                                sh3.updates.borrow_mut().push(UpdLog { round: sh3.round.get(), during_stabilise_call: sh3.in_stabilise.get(), slot: target, sub: nsub, upd: u.cloned(), read, reads_all: vec![] });
                             });
                             drop(h);
                             if let Ok(token) = r {
@@ -2093,6 +2113,26 @@ impl World {
                 }
             }
             self.obs.borrow_mut()[k].last = Some(got);
+        }
+        if self.cfg.mon.c07 {
+            // reads issued from inside update handlers show the fully propagated snapshot
+            for u in &updates {
+                for (k, r) in &u.reads_all {
+                    let (st, node, smug) = {
+                        let o = self.obs.borrow();
+                        (o[*k].st, o[*k].node, o[*k].smuggled)
+                    };
+                    if st != OSt::InUse || smug.is_some() {
+                        continue;
+                    }
+                    if let Ok(v) = r {
+                        cover("observer-read-inside-update-handler");
+                        let want = self.eval(node, &mut memo);
+                        let (v2, w2, kk) = (v.clone(), want.clone(), *k);
+                        require("C07/handler-saw-partial-snapshot", F::eq(v, &want), move || format!("observer slot {kk} read from inside an update handler returned {v2:?}; the propagated value is {w2:?}"));
+                    }
+                }
+            }
         }
         if self.cfg.mon.c09 {
             // callbacks for observers that are not in use (dead, or never promoted)
